@@ -187,7 +187,7 @@ def replay_dump(d):
     return (not p), "seed %s: %s" % (d["inputs"]["seed"], p or "GTF consistent")
 
 
-@bounded("C03.gff_dump", ["C03", "C17"], note="the real GFFPrinter.dump on random model sets (1-2 dump calls, 1-4 models of 1-4 exons, "
+@bounded("C03.gff_dump", ["C03", "C17"], shards=8, note="the real GFFPrinter.dump on random model sets (1-2 dump calls, 1-4 models of 1-4 exons, "
          "two genes per call, with an annotation that covers the models, one whose genes are shorter than the models, or none): every transcript once and spanning exactly its exons with its strand and gene, every gene once and spanning all its transcripts, exon "
          "records equal to the model, exon_id functional and injective; parsed back from the written GTF")
 def c03_dump(tier, rng):
@@ -291,7 +291,7 @@ def replay_joiner(d):
     return (not p), "seed %s: %s" % (d["inputs"]["seed"], p or "reference transcripts keep their genes")
 
 
-@bounded("C03.gene_joiner", ["C03", "C04"], note="the real TranscriptToGeneJoiner on random loci (1-2 reference genes with ids of several "
+@bounded("C03.gene_joiner", ["C03", "C04"], shards=8, note="the real TranscriptToGeneJoiner on random loci (1-2 reference genes with ids of several "
          "shapes - upper case, lower case, previously generated novel_gene ids - and 1-4 overlapping novel models): every transcript "
          "reported under a reference id keeps its reference gene; no model is lost")
 def c03_joiner(tier, rng):
